@@ -85,13 +85,13 @@ def gen(rng, tier):
         ncyc = rng.choice([10, 25, 60, 150, 400]) if tier == "quick" else rng.choice([60, 400, 1000, 3000])
         seed = rng.randrange(1 << 30)
         gc_every = rng.choice([0, 1, 7, 50])
-        main += [["status"], ["repr_gw"], ["cycles_i", "c0", ncyc, seed, gc_every],
+        main += [["status"], ["repr_gw"], ["ncallbacks"], ["cycles_i", "c0", ncyc, seed, gc_every],
                  ["send", "c0", "c0:i2w:0:ping", ["none"]], ["recv", "c0"], ["gc"],
                  ["send", "c0", "c0:i2w:0:ping2", ["none"]], ["recv", "c0"],
-                 ["status"], ["repr_gw"], ["send", "c0", "c0:i2w:0:fin", ["none"]]]
-        W["ops"] += [["cycles_w", "c0", ncyc, seed, gc_every], ["recv", "c0"], ["gc"],
+                 ["status"], ["repr_gw"], ["ncallbacks"], ["send", "c0", "c0:i2w:0:fin", ["none"]]]
+        W["ops"] += [["ncallbacks"], ["cycles_w", "c0", ncyc, seed, gc_every], ["recv", "c0"], ["gc"],
                      ["send", "c0", "c0:w2i:1:pong", ["none"]], ["recv", "c0"], ["gc"],
-                     ["send", "c0", "c0:w2i:1:pong2", ["none"]], ["recv", "c0"]]
+                     ["send", "c0", "c0:w2i:1:pong2", ["none"]], ["recv", "c0"], ["ncallbacks"]]
         preempt = L.gen_preempt(rng, 6000)
     main.append(["waitclose", "c0", 900])
     main.append(["terminate", 10.0])
@@ -168,6 +168,11 @@ def oracle(case, res, hist):
             if st[1][1][1] > st[0][1][1]:  # growth (a smaller table is harmless)
                 V.append(v("table-growth", "worker;numchannels",
                            f"remote_status().numchannels {st[0][1][1]} before, {st[1][1][1]} after {case['ncyc']} cycles"))
+        for side, aid_ in (("initiator", 0), ("worker", 1)):
+            nc = [r[1] for aid, oi, op, s1, s2, r in hist.ops(("ncallbacks",)) if aid == aid_ and r and r[0] == "val"]
+            if len(nc) == 2 and nc[0] >= 0 and nc[1] > nc[0]:
+                V.append(v("table-growth", f"{side};callback-table",
+                           f"len(_callbacks) {nc[0]} before, {nc[1]} after {case['ncyc']} cycles"))
         if len(rp) == 2:
             n0 = re.search(r"(\d+) active channels", rp[0])
             n1 = re.search(r"(\d+) active channels", rp[1])
